@@ -224,6 +224,20 @@ Theorem C04_confirmed_on_active_chain le c h0 boot t0 hist :
             t_height k <= gk_height (fst (run le t0 hist)).
 Proof. exact (confirmed_on_active_chain le c h0 boot t0 hist). Qed.
 
+(* while a block is connected a row is (newly) recorded as confirmed only with that block's height and
+   only when the block contains its penalty; memo_ok holds in every reachable state *)
+Theorem C04_confirmed_only_by_block le sc t b h t' u k k' :
+  Inv t -> memo_ok t -> r_block_connected le sc t b h = Ok tt t' ->
+  find_trk (db_trks t) u = Some k -> find_trk (db_trks t') u = Some k' -> t_conf k' = true ->
+  (memN (t_penalty k) (keys_of (ib_data b)) = true /\ k' = restamp k h true) \/
+  (memN (t_penalty k) (keys_of (ib_data b)) = false /\ k' = k).
+Proof. exact (confirmed_only_by_block le sc t b h t' u k k'). Qed.
+
+Theorem C04_memo_ok_reachable le c h0 boot t0 hist :
+  init c h0 boot = Some t0 -> NoDup (map fst boot) -> fresh_hashes le t0 hist ->
+  Forall not_abort (snd (run le t0 hist)) -> memo_ok (fst (run le t0 hist)).
+Proof. exact (memo_ok_reachable le c h0 boot t0 hist). Qed.
+
 (* 6. a penalty that never confirms is never refunded *)
 Theorem C04_never_completes_unconfirmed txids h t k :
   Inv t -> In k (db_trks t) -> t_conf k = false -> ~ In (trk_uuid k) (completed_list txids h t).
@@ -250,6 +264,8 @@ Print Assumptions C04_rebroadcast_restamps_now.
 Print Assumptions C04_resent_every_6th_block.
 Print Assumptions C04_responder_sends_justified.
 Print Assumptions C04_confirmed_on_active_chain.
+Print Assumptions C04_confirmed_only_by_block.
+Print Assumptions C04_memo_ok_reachable.
 Print Assumptions C04_never_completes_unconfirmed.
 
 (* ---------- non-vacuity ---------- *)
